@@ -235,6 +235,46 @@ def DDXex (psiR psiZ gR gZ : ℝ) : ℝ := (psiR * gR + psiZ * gZ) / (psiR ^ 2 +
 /-- ∂g/∂y at constant x: hy (B_p·∇g)/Bp -/
 def DDYex (hy Bp BR BZ gR gZ : ℝ) : ℝ := hy * (BR * gR + BZ * gZ) / Bp
 
+/-- d/dr (a² + b²) = 2(a a' + b b') -/
+theorem hasDerivAt_sq2 {a b : ℝ → ℝ} {a' b' x : ℝ} (ha : HasDerivAt a a' x) (hb : HasDerivAt b b' x) :
+    HasDerivAt (fun r => a r ^ 2 + b r ^ 2) (2 * (a x * a' + b x * b')) x := by
+  have h := (ha.fun_pow 2).fun_add (hb.fun_pow 2)
+  refine h.congr_deriv ?_
+  simp only [Nat.cast_ofNat, Nat.add_one_sub_one, pow_one]
+  ring
+
+/-! ## integrands of the x–y form and their partial derivatives at one point (generated helper expressions) -/
+section xyform
+variable (R Z BR BZ f fp pRR pZZ pRZ : ℝ)
+
+/-- ∂/∂R of Bt·R/B² (= fpol/B²) -/
+def dBtRB2dR : ℝ :=
+  fp * (-R * BZ) / B2 R Z BR BZ f fp pRR pZZ pRZ
+    - f / B2 R Z BR BZ f fp pRR pZZ pRZ ^ 2 * dB2dR R Z BR BZ f fp pRR pZZ pRZ
+/-- ∂/∂Z of Bt·R/B² -/
+def dBtRB2dZ : ℝ :=
+  fp * (R * BR) / B2 R Z BR BZ f fp pRR pZZ pRZ
+    - f / B2 R Z BR BZ f fp pRR pZZ pRZ ^ 2 * dB2dZ R Z BR BZ f fp pRR pZZ pRZ
+/-- ∂/∂R of Bt/R -/
+def dBtoRdR : ℝ := (dBzetadR R Z BR BZ f fp pRR pZZ pRZ - Bzeta R Z BR BZ f fp pRR pZZ pRZ / R) / R
+/-- ∂/∂Z of Bt/R -/
+def dBtoRdZ : ℝ := dBzetadZ R Z BR BZ f fp pRR pZZ pRZ / R
+/-- ∂/∂R of the signed poloidal field Bp = ±√(BR² + BZ²) -/
+def dBpdR (Bp : ℝ) : ℝ :=
+  (BR * dBRdR R Z BR BZ f fp pRR pZZ pRZ + BZ * dBZdR R Z BR BZ f fp pRR pZZ pRZ) / Bp
+/-- ∂/∂Z of the signed poloidal field -/
+def dBpdZ (Bp : ℝ) : ℝ :=
+  (BR * dBRdZ R Z BR BZ f fp pRR pZZ pRZ + BZ * dBZdZ R Z BR BZ f fp pRR pZZ pRZ) / Bp
+
+end xyform
+
+/-- Lamé relation of the orthogonal (ψ, θ) coordinates, ∂ ln(hy)/∂x = ∇·(∇ψ/|∇ψ|)/|∇ψ|, written out with the first and
+second derivatives of ψ.  (HYPOTHESIS of `xy_form_agrees_z_partial`: hy is a grid quantity, not a function of the
+point values.) -/
+def dxLnHyLame (psiR psiZ pRR pZZ pRZ : ℝ) : ℝ :=
+  (pRR + pZZ) / (psiR ^ 2 + psiZ ^ 2)
+    - (psiR ^ 2 * pRR + 2 * psiR * psiZ * pRZ + psiZ ^ 2 * pZZ) / (psiR ^ 2 + psiZ ^ 2) ^ 2
+
 /-! ## OPTIONAL — HAND-WRITTEN model of `DCT_2D` (hypnotoad/utils/dct_interpolation.py); NOT generated from the Python.
 `dctEval` models `DCT_2D.__call__`, `dctDdR` models `DCT_2D.ddR`; the coefficients `c l k` are a parameter. -/
 section dctmodel
